@@ -121,43 +121,10 @@ class LenBound:
 
 
 def freq_bound_rule(chk, src):
-    fi = src.func(MPS, "_get_freq_environ")
-    ps = fi.params()           # environ_dict, mpo, domain, max_length
-    lim = ps[3]
-    loops = [n for n in fi.node.body if isinstance(n, ast.For)]
-    if len(loops) != 1:
-        raise AnalysisError(f"{fi.where}: cache lookup loop not found")
-    lst = None
-    for n in fi.node.body:
-        if isinstance(n, ast.Assign) and isinstance(n.value, ast.List) and not n.value.elts and isinstance(n.targets[0], ast.Name):
-            lst = n.targets[0].id
-    if lst is None:
-        raise AnalysisError(f"{fi.where}: accumulator list not found")
-    lb = LenBound(lst, lim)
-    lb.loop(loops[0], 0)   # len = 0 <= max_length (callers pass np.inf or len(mpo) - l_idx - 1 >= 0)
-    worst = max(h for h, _ in lb.exits)
-    bad = [d for h, d in lb.exits if h > 0]
-    chk.ob("freq-env-bound", "_get_freq_environ: len(hashes) <= max_length at every exit", worst <= 0, fi.where,
-           f"len - max_length <= {worst} ({'; '.join(bad)})" if bad else "len(hashes) - max_length <= 0 at all exits", "<= 0", line=loops[0].lineno,
-           detail="the cached right environment may be longer than the sites left free by the cached left environment: a site is contracted twice in the batched "
-                  "expectation path (only for operator lists with overlapping shared prefixes and suffixes)")
-    # the caller passes the remaining length
-    ex = src.func(MPS, "Mps.expectations")
-    calls = [c for c in ast.walk(ex.node) if isinstance(c, ast.Call) and unparse(c.func) == "_get_freq_environ"]
-    args = [[unparse(a).replace(" ", "") for a in c.args] for c in calls]
-    ok = len(calls) == 2 and args[0][2:] == ["'L'", "np.inf"] and args[1][2] == "'R'" and args[1][3] in ("len(mpo)-l_idx-1", "len(mpo)-1-l_idx", "len(mpo)-(l_idx+1)")
-    chk.ob("freq-env-bound", "Mps.expectations: right lookup limited to the sites not covered by the left one", ok, ex.where, args, "L: np.inf; R: len(mpo) - l_idx - 1", line=ex.node.lineno)
-    rng = [n for n in ast.walk(ex.node) if isinstance(n, ast.For) and unparse(n.iter).replace(" ", "") == "range(l_idx+1,r_idx)"]
-    chk.ob("freq-env-bound", "Mps.expectations: sites strictly between the two cached environments are contracted", len(rng) == 1, ex.where, len(rng), 1, line=ex.node.lineno)
-    # index returned by _get_freq_environ
-    idx = {}
-    for n in ast.walk(fi.node):
-        if isinstance(n, ast.If) and unparse(n.test).replace(" ", "") == f"{ps[2]}=='L'":
-            for s in n.body + n.orelse:
-                if isinstance(s, ast.Assign) and isinstance(s.targets[0], ast.Name) and s.targets[0].id == "i":
-                    idx["L" if s in n.body else "R"] = unparse(s.value).replace(" ", "")
-    chk.ob("freq-env-bound", "_get_freq_environ: site index of the environment edge", idx == {"L": f"len({lst})-1", "R": f"len({ps[1]})-len({lst})"}, fi.where, idx,
-           {"L": "len(hashes) - 1", "R": "len(mpo) - len(hashes)"}, line=fi.node.lineno)
+    """cached partial environments of the batched expectation path: decided by an abstract run of Mps.expectations with _construct_freq_environ and
+    _get_freq_environ run from source (chain_rules.batched_expectation_rule)"""
+    from .chain_rules import batched_expectation_rule
+    batched_expectation_rule(chk, src, "freq-env-bound")
 
 
 def transfer_cases(src):
@@ -627,7 +594,7 @@ def run(chk):
                        "max_length >= 0 at every call (np.inf or len(mpo) - l_idx - 1 with l_idx <= len(mpo) - 1)"]
     chk.rule("env-network", "environment / expectation / transfer kernel == canonical transfer-matrix network (per configuration)", 18)
     chk.rule("kernel-args", "site kernels receive (ket site -> ms, bra site -> ms_conj)", 6)
-    chk.rule("freq-env-bound", "length bound of cached partial environments and its use by the batched expectation path", 4)
+    chk.rule("freq-env-bound", "batched expectation path (abstract run): the cached left / right environments and the sites contracted on the fly cover every site of every operator exactly once", 5)
     cases = K.site_cases(src)
     ec, prov = K.expectation_cases(src)
     chk.table("expectation_operand_provenance", prov)
